@@ -58,6 +58,9 @@ theorem slugify_suffix_frame (ids : List Str) (slug : Str) : ∀ fuel i, Pres Fr
   have h := slugify_suffix_frame
   frame_start; unfold slugify; wp_go
 
+@[frame] theorem unterminatedCheck_frame (d : BlockDef) (mt : Match) (r : Reader) : Pres Frame (unterminatedCheck d mt r) := by
+  frame_start; unfold unterminatedCheck; wp_go
+
 @[frame] theorem htmlVerify_frame (mt : Match) : Pres Frame (htmlVerify mt) := by
   frame_start; unfold htmlVerify; wp_go
 
